@@ -10,7 +10,7 @@ from ..sub import Sub
 
 RULE = ("Non-trivial: non-zero offsets, (>= 2 kernels / noise units or Dx >= 2) and p(x) overlapping the non-linearity "
         "(|E h| <= 3 sd(h) for some unit) so that the link is not effectively constant.")
-BOUNDS = {"Dx": "1..2 (feature models, quadrature) / 1..3 (heteroscedastic, closed forms)", "Dy": "1..3", "kernels / units": "1..3", "R_x": "1..3"}
+BOUNDS = {"Dx": "1..2 (feature models, quadrature + closed form), 3..5 (closed form); 1..3 (heteroscedastic)", "Dy": "1..3", "kernels": "1..5", "noise units": "1..3", "R_x": "1..3"}
 ASSUMPTIONS = [
     "feature models: E m, E m m', E m x' by tensor Gauss-Hermite over p(x) at 48 and 64 nodes per dimension with m(x) evaluated from the "
     "DOCUMENTED kernel (unit-height bumps); unconverged cases are counted as excluded",
@@ -107,9 +107,9 @@ def _judge(fails, tag, fam, lib_obj_fn, case, px, refs, Dx, Dy, kf=None):
 # ------------------------------------------------------------------------------------------ feature models
 def _pool_feat(tier):
     # (Dx, Dy, Dk, Rx)
-    base = [(1, 1, 1, 1), (1, 2, 2, 2), (2, 1, 2, 1), (2, 2, 3, 2), (1, 3, 3, 3), (2, 2, 1, 3)]
+    base = [(1, 1, 1, 1), (1, 2, 2, 2), (2, 1, 2, 1), (2, 2, 3, 2), (1, 3, 3, 3), (2, 2, 1, 3), (3, 2, 4, 2), (4, 3, 5, 1), (1, 2, 5, 2)]
     if tier == "thorough":
-        base += [(2, 3, 2, 1), (1, 1, 3, 2), (2, 1, 1, 2), (1, 2, 1, 1)]
+        base += [(2, 3, 2, 1), (1, 1, 3, 2), (2, 1, 1, 2), (1, 2, 1, 1), (3, 3, 2, 3), (4, 1, 4, 2), (2, 2, 5, 2), (5, 2, 3, 1)]
     return base
 
 
@@ -162,8 +162,29 @@ def _run_feat(case):
             want = np.where(ok_rows, 1.0, np.exp(-0.5 * w0**2))
         check(fails, f"{kind}:unit_height_bump", diag, want, np.ones(Dk))
     mxs, Sxs = np.asarray(case["px"]["mu"], float), np.asarray(case["px"]["Sigma"], float)
+    forms = oracle.kernel_forms(case["c"])
+    Mx, Mk = M[:, :Dx], M[:, Dx:]
+    if Dx > 2:
+        # beyond the quadrature oracle: independent closed-form Gaussian-kernel expectations (valid for any Dx, Dk)
+        refs = []
+        for r in range(Rx):
+            Ek, Ekx, Ekk = oracle.kernel_moments(mxs[r], Sxs[r], forms)
+            Exx = Sxs[r] + np.outer(mxs[r], mxs[r])
+            Em = Mx @ mxs[r] + Mk @ Ek + b
+            Emm = (Mx @ Exx @ Mx.T + Mx @ Ekx.T @ Mk.T + Mk @ Ekx @ Mx.T + Mk @ Ekk @ Mk.T
+                   + np.outer(Mx @ mxs[r] + Mk @ Ek, b) + np.outer(b, Mx @ mxs[r] + Mk @ Ek) + np.outer(b, b))
+            Emx = Mx @ Exx + Mk @ Ekx + np.outer(b, mxs[r])
+            Sy = S + Emm - np.outer(Em, Em)
+            Sy = 0.5 * (Sy + Sy.T)
+            sc_abs = max(1.0, float(np.abs(Emm).max()))
+            refs.append({"my": Em, "Sy": Sy, "Cyx": Emx - np.outer(Em, mxs[r]), "mx": mxs[r], "Sx": Sxs[r],
+                         "scale": sc_abs / max(1e-12, float(np.abs(Sy).max())) + 1.0 + float(oracle.cond(Sxs[r][None])[0])})
+        _judge(fails, kind, kind, lambda: c, case, px, refs, Dx, Dy)
+        return fails
     refs, conv = [], True
     for r in range(Rx):
+        # cross-check of the two oracles (closed form vs quadrature); a disagreement is an oracle error
+        Ek_cf, Ekx_cf, Ekk_cf = oracle.kernel_moments(mxs[r], Sxs[r], forms)
         out = []
         for nq in (48, 64):
             X, w_ = oracle.gauss_hermite_nd(mxs[r], Sxs[r], nq)
@@ -176,6 +197,9 @@ def _run_feat(case):
         sc_abs = max(1.0, float(A2.max()))
         if max(np.abs(E1 - F1).max(), np.abs(E2 - F2).max(), np.abs(E3 - F3).max()) > 1e-10 * sc_abs:
             conv = False
+        Em_cf = Mx @ mxs[r] + Mk @ Ek_cf + b
+        if conv and np.max(np.abs(Em_cf - E1)) > 1e-7 * sc_abs:
+            raise AssertionError(f"closed-form and quadrature kernel expectations disagree: {Em_cf} vs {E1}")  # oracle error -> harness
         Sy = S + E2 - np.outer(E1, E1)
         Sy = 0.5 * (Sy + Sy.T)
         Cyx = E3 - np.outer(E1, mxs[r])
@@ -293,7 +317,7 @@ def _nontrivial_het(case):
 SUBS = [
     Sub("feature", _pool_feat, _strategy_feat, _run_feat, _nontrivial_feat,
         lambda c: [f"kind={c['kind']}", f"Dx={c['Dx']}", f"Rx={c['Rx']}"],
-        examples={"quick": 60, "thorough": 350}, shards={"quick": 6, "thorough": 10}, rule="(Dk>=2 or Dx>=2) and overlap"),
+        examples={"quick": 50, "thorough": 300}, shards={"quick": 9, "thorough": 17}, rule="(Dk>=2 or Dx>=2) and overlap"),
     Sub("heteroscedastic", _pool_het, _strategy_het, _run_het, _nontrivial_het,
         lambda c: [f"kind={c['kind']}", f"Dx={c['Dx']}", f"Rx={c['Rx']}", "Da>Dy" if c["Da"] > c["Dy"] else "Da=Dy"],
         examples={"quick": 60, "thorough": 350}, shards={"quick": 8, "thorough": 12}, rule="(Dk>=2 or Dx>=2), non-zero offsets, overlap"),
